@@ -128,7 +128,114 @@ def units(tier, seed):
   us = []
   for i in range(max(len(g) for g in groups)):
     us.extend(g[i] for g in groups if i < len(g))
+  # pytree containers inside the argument graph (dict in unsorted insertion order, lists with
+  # more than ten entries): the containers are rebuilt by value, Variables keep their identity
+  for cont in CONTAINER_GRAPHS:
+    us.append(dict(kind='cont', progs=[], cont=cont))
   return us
+
+
+CONTAINER_GRAPHS = ['dict-unsorted', 'dict-int', 'list12', 'dict+shared']
+CONT_TRANSFORMS = ['jit', 'remat', 'cond', 'switch', 'while', 'fori', 'cached_partial']
+
+
+def _cont_graph(cont):
+  import jax.numpy as jnp
+  from flax import nnx
+
+  class M(nnx.Module):
+    pass
+  m = M()
+  P = lambda v: nnx.Param(jnp.asarray(float(v)))
+  if cont == 'dict-unsorted':
+    m.d = {'w': P(1), 'b': P(10), 'a': nnx.BatchStat(jnp.asarray(100.0))}
+  elif cont == 'dict-int':
+    m.d = {10: P(1), 2: P(10), 1: nnx.BatchStat(jnp.asarray(100.0))}
+  elif cont == 'list12':
+    m.d = [P(i + 1) for i in range(12)]
+  elif cont == 'dict+shared':
+    v = P(1)
+    m.d = {'z': v, 'b': P(10), 'y': v}
+    m.extra = v
+  return m
+
+
+def _cont_body(m):
+  """value-only edit on the container's Variables, order-sensitive result"""
+  # address the Variables by key (a dict is a pytree node: it is rebuilt by value inside a
+  # transform and its iteration order is not part of the graph)
+  vs = [m.d[k] for k in sorted(m.d, key=repr)] if isinstance(m.d, dict) else list(m.d)
+  vs[0].value = vs[0].value + 1.0
+  vs[1].value = vs[1].value * 2.0
+  out = 0.0
+  for i, v in enumerate(vs):
+    out = out * 3.0 + v.value
+  return out
+
+
+def _cont_ids(m):
+  items = m.d.items() if isinstance(m.d, dict) else enumerate(m.d)
+  return {repr(k): id(v) for k, v in items}
+
+
+def _cont_snapshot(m):
+  import numpy as np
+  items = list(m.d.items()) if isinstance(m.d, dict) else list(enumerate(m.d))
+  return (sorted((repr(k), type(v).__name__, float(np.asarray(v.value))) for k, v in items),
+          type(m.d).__name__)
+
+
+def _run_cont(res, cont):
+  import jax.numpy as jnp
+  from flax import nnx
+  ref = _cont_graph(cont)
+  exp_out = float(_cont_body(ref))
+  exp = _cont_snapshot(ref)
+  for t in CONT_TRANSFORMS:
+    m = _cont_graph(cont)
+    ids = _cont_ids(m)
+    res['evals'] += 1
+    res['transitions'] += 1
+    key = f'{cont}|{t}'
+    try:
+      if t == 'jit':
+        out = nnx.jit(_cont_body)(m)
+      elif t == 'remat':
+        out = nnx.remat(_cont_body)(m)
+      elif t == 'cached_partial':
+        out = nnx.cached_partial(nnx.jit(_cont_body), m)()
+      elif t == 'cond':
+        out = nnx.cond(True, _cont_body, lambda m: jnp.asarray(0.0), m)
+      elif t == 'switch':
+        out = nnx.switch(1, [lambda m: jnp.asarray(0.0), _cont_body], m)
+      elif t == 'while':
+        def body(c):
+          mm, i, o = c
+          return mm, i + 1, _cont_body(mm)
+        _, _, out = nnx.while_loop(lambda c: c[1] < 1, body, (m, 0, jnp.asarray(0.0)))
+      else:
+        def fbody(i, c):
+          mm, o = c
+          return mm, _cont_body(mm)
+        _, out = nnx.fori_loop(0, 1, fbody, (m, jnp.asarray(0.0)))
+    except Exception as e:  # noqa
+      core.violation(res, f'cont-raises|{key}', f'{type(e).__name__}: {str(e)[:200]}',
+                     dict(cont=cont, t=t))
+      continue
+    got = _cont_snapshot(m)
+    if float(out) != exp_out:
+      core.violation(res, f'cont-ret|{key}', f'return value {float(out)} differs from eager '
+                     f'{exp_out}', dict(cont=cont, t=t))
+    if got != exp:
+      core.violation(res, f'cont-state|{key}', 'container Variables after the transformed call '
+                     'differ from eager', dict(cont=cont, t=t), observed=got[0], expected=exp[0])
+    if t != 'cached_partial' and _cont_ids(m) != ids:
+      core.violation(res, f'cont-identity|{key}', 'the caller\'s Variables were replaced',
+                     dict(cont=cont, t=t))
+    core.outcome(res, 'cont:ok')
+    res['nontrivial'].append(core.h(['cont', key]))
+  res['states'] += 1
+  res['samples'].append(dict(kind='cont', cont=cont, transforms=CONT_TRANSFORMS))
 
 
 def histories(hs):
@@ -587,6 +694,9 @@ _NPROG = [0]
 
 def run_unit(unit):
   res = core.new_result()
+  if unit['kind'] == 'cont':
+    _run_cont(res, unit['cont'])
+    return res
   ctx = _Ctx(res)
   for p in unit['progs']:
     prog = tuple(p)
